@@ -25,6 +25,7 @@ EXPLANATION = (
     "(D3s) sibling agreement of the sub_symbols arms: the Expr arm substitutes simultaneously (subs(..., simultaneous=True) / xreplace), like the Symbol arm's dictionary lookup."
     ' Round 4: (D6) the numeric and the symbolic embedding are the same construction on the same arguments and lifted_matrix has no other exit (shared with C01-D5).'
     ' Round 5: (D7) no cached_property / cache on mutable circuits or keyed by tolerant equality; (D8) wrapper matrices are the fixed matrix functions of the wrapped matrix (C07-D3).'
+    " Round 6: bind substitutes with the caller's map as given (never re-keyed / filtered; a plain copy is fine); a bind with several exits is judged exit by exit, and `return self` is not a bound object (D2)."
 )
 RULE_TEXT = "instances = bind/replace_params/free_symbols methods of all gate, operation and circuit classes, sub_symbols arms, replace() call sites; distinct by (rule, construct)"
 ASSUMPTIONS = [
